@@ -3,6 +3,7 @@ CONSTANTS
   Universe = "events"
   MaxTotal = 3
   MaxSide = 2
+  Rich = FALSE
   Matcher = "positive"
   ClipAlg = "fixed"
   ExportAt = "next"
